@@ -2,7 +2,7 @@
 import ast
 
 from ..model import AnchorError, call_name, const_str, dotted, src
-from ..rules import FuncView, suffix_match, attr_writers, func_qual_of
+from ..rules import FuncView, suffix_match, attr_writers, func_qual_of, truth_formula, path_condition, formula_unsat, formula_implies_f, formula_of, loop_continue_condition
 from . import _framing
 
 EXPLANATION = (
@@ -72,19 +72,18 @@ def check(ctx):
                 ctx.check(w.id not in r, "T9-tx", rn.ast, "%s.%s leaves the loop after a re-queue" % (cn, fname),
                           "continuing to send after a partial send would put later data on the wire before the re-queued tail")
             else:
-                rets = [n for n in cfg.nodes if n.kind == "return" and n.id in cfg.reachable(rn.id)]
-                ok2 = bool(rets) and all(isinstance(x.ast.value, ast.Constant) and x.ast.value.value is False for x in rets)
-                ctx.check(ok2, "T9-tx", rn.ast, "%s.%s reports blocked (False) after a re-queue" % (cn, fname), "the caller must stop sending")
+                # the function's result is truthy exactly when nothing was put back
+                ok2 = formula_unsat(truth_formula(V), path_condition(V, rn, start=[cfg.entry.id]))
+                ctx.check(ok2, "T9-tx", rn.ast, "%s.%s reports blocked (falsy) after a re-queue" % (cn, fname), "the caller must stop sending")
         others = V.calls(("self.txes.pop", "self.txes.clear", "self.txes.remove", "self.txes.rotate", "self.txes.reverse"))
         ctx.check(not others, "T9-tx", f, "%s.%s: no other mutation of txes" % (cn, fname), "")
     # Driver.serviceTxes stops when _serviceOneTx reports blocked
     D = ctx.cls("serialing", "Driver")
     st = D.own_method("serviceTxes")
     S = FuncView(ctx, st)
-    t = S.tests(lambda t: isinstance(t, ast.UnaryOp) and isinstance(t.op, ast.Not))
     one = S.need(S.call_nodes("self._serviceOneTx"), "_serviceOneTx() call")
-    brk = [n for n in S.cfg.nodes if n.kind == "break"]
-    ok = bool(t) and bool(brk) and any(S.dominated_by_edge([b], x, "T") for b in brk for x in t if src(S.sym(x.ast.test.operand, x)) == "self._serviceOneTx()")
+    wh = [w for w in S.cfg.nodes if w.kind == "test" and isinstance(w.ast, ast.While)]
+    ok = len(wh) == 1 and formula_implies_f(loop_continue_condition(S, wh[0]), formula_of("self._serviceOneTx()"))
     ctx.check(ok, "T9-tx", st, "Driver.serviceTxes breaks when _serviceOneTx() is falsy", "a blocked device must stop the drain")
     # tx() appends
     for modn, cn in (("tcp.clienting", "Client"), ("tcp.serving", "Incomer"), ("serialing", "Driver")):
